@@ -84,6 +84,9 @@ def drive(ctx, inputs, args=(), label="expr"):
         skipped.add(bad)
         todo = [i for i in todo if i != bad and i not in obs]
         if len(skipped) > 5:
+            ctx.notes.append("driver: gave up after %d cases on which the real code does not return; %d cases not evaluated" % (
+                len(skipped), len(todo)))
+            skipped.update(todo)
             return obs, outp, skipped
 
 
@@ -348,10 +351,17 @@ def run(ctx):
     d = ctx.subdir("random")
     binp = ctx.gobuild(DRIVER)
     tpath = os.path.join(d, "trace.ndjson")
-    p = subprocess.run([binp, "-out", tpath, "-seed", str(ctx.seed), "-random", str(nrand)], cwd=d, env=ctx.goenv(),
-                       stdout=subprocess.PIPE, stderr=subprocess.PIPE, text=True)
+    cmd = [binp, "-out", tpath, "-seed", str(ctx.seed), "-random", str(nrand)]
+    p = subprocess.run(cmd, cwd=d, env=ctx.goenv(), stdout=subprocess.PIPE, stderr=subprocess.PIPE, text=True, errors="replace")
     if p.returncode != 0:
-        raise core.Infra("random driver failed: %s" % p.stderr[-2000:])
+        p2 = subprocess.run(cmd, cwd=d, env=ctx.goenv(), stdout=subprocess.PIPE, stderr=subprocess.PIPE, text=True, errors="replace")
+        if p.returncode == 3 or p2.returncode == 0:
+            raise core.Infra("random driver failed: %s" % p.stderr[-2000:])
+        ctx.violation("C13/terminates/random", "hashing or copying a random graph does not come back (driver exit %d twice: %s)" % (
+            p2.returncode, (p2.stderr.strip().splitlines() or [""])[0][:200]), {"seed": ctx.seed, "random": nrand})
+        flush_reports(ctx)
+        ctx.cov["distinct_nontrivial"] = len(nontrivial)
+        return
     lines = [l for l in open(tpath) if l.strip()]
     ctx.log("random mode: %d events" % len(lines))
     validated = validate_trace(ctx, lines, nontrivial)
